@@ -4048,10 +4048,10 @@ class PathSegment:
 
     def __iadd__(self, other):
         if isinstance(other, PathSegment):
-            path = Path(self, other)
+            path = Path(copy(self), copy(other))
             return path
         elif isinstance(other, str):
-            path = Path(self) + other
+            path = Path(copy(self)) + other
             return path
         return NotImplemented
 
@@ -5928,6 +5928,8 @@ class Path(Shape, MutableSequence):
     def __add__(self, other):
         if isinstance(other, (str, Path, Subpath, Shape, PathSegment)):
             n = copy(self)
+            if isinstance(other, PathSegment):
+                other = copy(other)
             n += other
             return n
         return NotImplemented
@@ -5939,7 +5941,7 @@ class Path(Shape, MutableSequence):
             return path
         elif isinstance(other, PathSegment):
             path = copy(self)
-            path.insert(0, other)
+            path.insert(0, copy(other))
             return path
         else:
             return NotImplemented
@@ -7656,7 +7658,7 @@ class Subpath:
             return path
         elif isinstance(other, PathSegment):
             path = Path(self)
-            path.insert(0, other)
+            path.insert(0, copy(other))
             return path
         else:
             return NotImplemented
